@@ -7,14 +7,26 @@ from gen import intervals as G
 
 ID = "C19"
 PROPS = ["IsoVerif/Props/C19.lean", "IsoVerif/Props/C19Lists.lean", "IsoVerif/Props/C19Profiles.lean",
-         "IsoVerif/Props/C19Split.lean"]
-TARGETS = ["IsoVerif.Props.C19", "IsoVerif.Props.C19Lists", "IsoVerif.Props.C19Profiles", "IsoVerif.Props.C19Split"]
-GEN_DEPS = ["Prims"]
+         "IsoVerif/Props/C19Split.lean",
+         # loop functions regenerated from the source (Gen/Loops.lean): refinement theorems Gen.f = Model.f and the headline
+         # theorems over Gen.f, one file per group of functions; the loop-invariant lemmas are audited too so that a re-opened
+         # proof is named precisely and takes down only its own group
+         "IsoVerif/Lemmas/GenBase.lean",
+         "IsoVerif/Lemmas/GenSums.lean", "IsoVerif/Props/C19GenSums.lean",
+         "IsoVerif/Lemmas/GenJunctions.lean", "IsoVerif/Props/C19GenJunctions.lean",
+         "IsoVerif/Lemmas/GenSweeps.lean", "IsoVerif/Props/C19GenSweeps.lean",
+         "IsoVerif/Lemmas/GenBinSearch.lean", "IsoVerif/Props/C19GenBinSearch.lean",
+         "IsoVerif/Lemmas/GenTruncate.lean", "IsoVerif/Props/C19GenTruncate.lean"]
+TARGETS = ["IsoVerif.Props.C19", "IsoVerif.Props.C19Lists", "IsoVerif.Props.C19Profiles", "IsoVerif.Props.C19Split",
+           "IsoVerif.Props.C19GenSums", "IsoVerif.Props.C19GenJunctions", "IsoVerif.Props.C19GenSweeps",
+           "IsoVerif.Props.C19GenBinSearch", "IsoVerif.Props.C19GenTruncate", "IsoVerif.Props.C19Gen"]
+GEN_DEPS = ["Prims", "LoopsRt", "Loops", "LoopsOps"]
 LEVEL = "proof"
 RULE = ("exhaustive small universes (interval pairs over 0..6 x delta 0..4; sorted disjoint lists of <=3 intervals over "
         "1..8, pairs of them) + seeded random large instances (<=60 intervals, coordinates to 1e9) + a malformed stream; "
         "a case is non-trivial when the model returns a non-error value and model == implementation; distinct by (op, input)")
-TRUSTED = ["Gen/Prims.lean is a syntax-directed translation of src/common.py (cross-checked against the Python functions each run)"]
+TRUSTED = ["Gen/Prims.lean and Gen/Loops.lean are syntax-directed translations of src/common.py (cross-checked against the Python "
+           "functions each run: harness/gencheck.py, ops Gen.<name>)"]
 ASSUMPTIONS = ["CPython int semantics = Lean Int", "float results compared as exact fractions num/den against the model's pair"]
 
 
@@ -268,6 +280,18 @@ def model_ops(ctx):
 
 
 def correspondence(ctx):
+    # translator self-check of the regenerated loop functions (run by vcheck just before; statistics into the evidence)
+    try:
+        import gencheck
+        st = {k: v for k, v in gencheck.LOOP_STATS.get("functions", {}).items()
+              if k not in ("get_read_blocks", "concat_gapless_blocks")}
+        ctx.extra["gen_loops_selfcheck"] = st
+        for name, v in st.items():
+            ctx.hist["genloop:%s" % name] = v["cases"]
+            ctx.evaluations += v["cases"]
+            ctx.traces_validated += v["cases"]
+    except Exception:
+        pass
     have = model_ops(ctx)
     ctx.extra["model_ops_optional"] = sorted(have)
     cases = gen_cases(ctx, have)
